@@ -528,6 +528,35 @@ def load_ast(path, lang, fname):
 SNAPSHOT = os.path.join(os.path.dirname(os.path.abspath(__file__)), "purefns_snapshot.json")
 
 
+def find_renamed(path, lang, fname, lean_name, spec_v, snap_entry, consts, known, resolve):
+    """the function of `path` that is `fname` under another name: same number of parameters and a translation identical to the snapshot's"""
+    if snap_entry is None:
+        raise TransError("function %s not found in %s" % (fname, path))
+    src = open(os.path.join(REPO, path), encoding="utf-8-sig", errors="replace").read()
+    arity = len(snap_entry["params_full"])
+    cands = []
+    for m in re.finditer(r"^[A-Za-z_][\w\s\*:<>]*?\b([A-Za-z_]\w*)\s*\(([^;{}()]*)\)\s*(?:const\s*)?\{", src, re.M):
+        nme, plist = m.group(1), m.group(2).strip()
+        n = 0 if plist in ("", "void") else plist.count(",") + 1
+        if n == arity and nme not in cands and nme not in ("if", "for", "while", "switch", "return", "sizeof"):
+            cands.append(nme)
+    for cand in cands:
+        if cand in known or cand == fname:
+            continue
+        try:
+            node = load_ast(path, lang, cand)
+            saved = dict(known)
+            fn = Fn(node, consts, spec_v, known, None)
+            text, params = fn.translate(lean_name)
+            known.clear()
+            known.update(saved)
+            if text == snap_entry["text"]:
+                return cand, node
+        except TransError:
+            continue
+    raise TransError("function %s not found in %s (and no function of that file translates to its snapshot definition)" % (fname, path))
+
+
 def translate_all(consts, snapshot=None):
     """returns (defs, meta, failed, notes): defs = [(lean name, text, is_aux)], failed = {C name: reason}.
     A target that cannot be translated does not stop the others; callers of it are translated against its snapshot signature."""
@@ -564,17 +593,25 @@ def translate_all(consts, snapshot=None):
             known[cname] = (cname, p2, f2.ret_kind, {}, f2.params_full)
             defs.append((cname, t2, True))
         try:
-            node = load_ast(path, lang, fname)
             spec_v = {}
             for p, cexpr in spec.items():
                 if cexpr not in consts:
                     raise TransError("specialisation constant %s not extracted" % cexpr)
                 spec_v[p] = consts[cexpr]
+            c_now = fname
+            try:
+                node = load_ast(path, lang, fname)
+            except TransError:
+                # not found under its name: a function of the same file whose translation is, word for word, the snapshot's is the same
+                # function under a new name
+                c_now, node = find_renamed(path, lang, fname, lean_name, spec_v, snap.get(fname), consts, known, resolve)
+                notes.append("%s is no longer defined in %s; %s translates to the same definition and is taken for it" % (fname, path, c_now))
             fn = Fn(node, consts, spec_v, known, resolve)
             text, params = fn.translate(lean_name)
             known[fname] = (lean_name, params, fn.ret_kind, spec_v, fn.params_full)
+            known[c_now] = known[fname]
             defs.append((lean_name, text, False))
-            meta.append({"c": fname, "lean": lean_name, "file": path, "params": params, "ret": fn.ret_kind, "spec": spec_v, "params_full": fn.params_full, "text": text})
+            meta.append({"c": fname, "c_now": c_now, "lean": lean_name, "file": path, "params": params, "ret": fn.ret_kind, "spec": spec_v, "params_full": fn.params_full, "text": text})
         except TransError as e:
             failed[fname] = str(e)
             if fname in snap:
@@ -683,7 +720,9 @@ def main():
     if old != text:
         open(out, "w").write(text)
     os.makedirs(os.path.join(VERIF, "build"), exist_ok=True)
-    json.dump([{k: v for k, v in e.items() if k != "text"} for e in snapshot], open(os.path.join(VERIF, "build", "purefns.meta.json"), "w"), indent=1)
+    today_names = {m_["c"]: m_.get("c_now", m_["c"]) for m_ in meta}
+    json.dump([dict({k: v for k, v in e.items() if k != "text"}, c_now=today_names.get(e["c"], e["c"])) for e in snapshot],
+              open(os.path.join(VERIF, "build", "purefns.meta.json"), "w"), indent=1)
     json.dump(notes, open(os.path.join(VERIF, "build", "regen_notes_ctrans.json"), "w"), indent=1)
     for nt in notes:
         print("ctrans: NOTE " + nt, file=sys.stderr)
